@@ -133,7 +133,7 @@ fn judge_riga(v: &View) -> Verdict {
                     }
                 } else if what.starts_with("ret err") {
                     returned_err = true;
-                    if dec.fatal.is_none() && !closed && !(dec.partial() && closed) {
+                    if !dec.doomed() && !closed && !(dec.partial() && closed) {
                         vd.fail("C06", "C06.spurious-error", format!("{} on a well-formed stream prefix ({} messages decoded)", what, got.len()), e.seq);
                     }
                 } else if what.starts_with("ret none") {
@@ -329,7 +329,7 @@ impl Check for C19 {
         vec![
             "10 virtual s bound for contacting listed peers after the first good reply and for answering a dial-in handshake",
             "the 'any reply body parses without panic' half is sampled only through this generator",
-            "the number of peers dialled is not fixed by the statement: min(k, 5, 11 - connections the client is interested in at the reply) distinct listed peers are demanded",
+            "the number of peers dialled is not fixed by the statement (the client only fills free connection slots, and how many it has is its own business): of k distinct listed peers min(k, 5) must be dialled when the client is interested in no connection at the reply, min(k, 2) when in 1-3, none otherwise",
         ]
     }
     fn generate(&self, profile: &str, seed: u64) -> Plan {
@@ -407,10 +407,17 @@ impl Check for C19 {
                     }
                 }
                 busy = busy.max(before);
-                if busy >= 11 {
-                    vd.probe("good_reply_with_all_slots_busy");
+                if busy >= 9 {
+                    vd.probe("good_reply_with_nine_or_more_busy_connections");
                 }
-                let want = l.iter().collect::<BTreeSet<_>>().len().min(5).min(11usize.saturating_sub(busy));
+                // (the number of slots is the client's business, so the demand is staged rather than
+                // computed from a constant: idle client -> 5, a few busy connections -> 2, more -> 0)
+                let stage = match busy {
+                    0 => 5,
+                    1..=3 => 2,
+                    _ => 0,
+                };
+                let want = l.iter().collect::<BTreeSet<_>>().len().min(stage);
                 let limit = t0 + 10_000;
                 if v.out.end_ms >= limit {
                     let got: BTreeSet<&String> = dials.iter().filter(|(t, a)| *t >= *t0 && *t <= limit && l.contains(a)).map(|(_, a)| a).collect();
